@@ -94,7 +94,55 @@ func fileFor(i int, z3file, cvcfile string) string {
 	return z3file
 }
 
+// confirmSat: a `sat` answer is accepted only when another solver agrees or no other solver can
+// decide the query (cvc5 1.0 was seen to answer sat on a query it refutes once its own model is
+// pinned; a spurious counterexample must not become an alarm).  Majority of the three decides.
+func confirmSat(cfg *SolverCfg, r solveResult, z3file, cvcfile string) solveResult {
+	if r.status != "sat" {
+		return r
+	}
+	type res struct{ r solveResult }
+	ch := make(chan solveResult, len(solverBins))
+	n := 0
+	for i, s := range solverBins {
+		if s.name == r.solver {
+			continue
+		}
+		n++
+		i, s := i, s
+		go func() { ch <- runSolver(context.Background(), s.name, s.bin, cfg.FullTimeout, fileFor(i, z3file, cvcfile)) }()
+	}
+	sat, unsat := 1, 0
+	var notes []string
+	for k := 0; k < n; k++ {
+		x := <-ch
+		notes = append(notes, x.solver+": "+x.status)
+		switch x.status {
+		case "sat":
+			sat++
+		case "unsat":
+			unsat++
+		}
+		r.secs += x.secs
+	}
+	r.out += "\n--- cross-check of the sat answer: " + strings.Join(notes, ", ")
+	switch {
+	case unsat == 0 || sat > unsat:
+		return r
+	case unsat > sat:
+		r.status = "unsat"
+		r.solver = "majority(" + strings.Join(notes, ", ") + "; " + r.solver + " answered sat)"
+		return r
+	}
+	r.status = "disagree"
+	return r
+}
+
 func solveFile(cfg *SolverCfg, key, z3file, cvcfile string) solveResult {
+	return confirmSat(cfg, solveFile0(cfg, key, z3file, cvcfile), z3file, cvcfile)
+}
+
+func solveFile0(cfg *SolverCfg, key, z3file, cvcfile string) solveResult {
 	// stage 0: the solver that decided the previous instance of the same obligation, alone
 	winnerMu.Lock()
 	wi, have := winner[key]
@@ -219,15 +267,48 @@ func expandJobs(cfg *SolverCfg, u *Unit) []*Oblig {
 		}
 	}
 	for _, o := range u.Obligs {
-		if len(u.Splits) > 0 && o.Kind != "vacuity" && o.Kind != "split-exhaustive" {
-			for i, sp := range u.Splits {
-				inst := *o
-				inst.Name = o.Name + u.SplitNm[i]
-				inst.Extra = sp
-				add(&inst)
-			}
-		} else {
+		if o.Kind == "vacuity" || o.Kind == "split-exhaustive" {
 			add(o)
+			continue
+		}
+		// product of the unrestricted hypothesis splits, refined by the splits restricted to this clause
+		combos := u.Splits
+		names := u.SplitNm
+		if len(combos) == 0 {
+			combos, names = [][]Term{nil}, []string{""}
+		}
+		for _, hs := range u.HSplits {
+			if len(hs.For) == 0 || !(o.Kind == "ensures" || o.Kind == "assert") {
+				continue
+			}
+			applies := false
+			for _, l := range hs.For {
+				if l == o.Label {
+					applies = true
+				}
+			}
+			if !applies {
+				continue
+			}
+			var nc [][]Term
+			var nn []string
+			for i, base := range combos {
+				for k, eq := range hs.Eqs {
+					nc = append(nc, append(append([]Term{}, base...), eq))
+					nn = append(nn, names[i]+hs.Names[k])
+				}
+			}
+			combos, names = nc, nn
+		}
+		if len(combos) == 1 && len(combos[0]) == 0 {
+			add(o)
+			continue
+		}
+		for i, sp := range combos {
+			inst := *o
+			inst.Name = o.Name + names[i]
+			inst.Extra = sp
+			add(&inst)
 		}
 	}
 	return out
@@ -304,7 +385,7 @@ func (p *Program) runPipeline(cfg *SolverCfg, tasks []Task) ([]*Oblig, []*Unit) 
 		case j.inst.Expect == "sat":
 			r = runSolver(context.Background(), solverBins[0].name, solverBins[0].bin, c.FirstTimeout, j.zf)
 		case race:
-			r = solveFileRace(c, j.zf, j.cf)
+			r = confirmSat(c, solveFileRace(c, j.zf, j.cf), j.zf, j.cf)
 		default:
 			r = solveFile(c, j.key, j.zf, j.cf)
 		}
@@ -334,7 +415,7 @@ func (p *Program) runPipeline(cfg *SolverCfg, tasks []Task) ([]*Oblig, []*Unit) 
 			fc := j.full + ".cvc5.smt2"
 			data, _ := os.ReadFile(j.full)
 			os.WriteFile(fc, []byte(strings.Replace(string(data), "(set-option :produce-models true)\n", "(set-option :produce-models true)\n(set-logic ALL)\n", 1)), 0o644)
-			r2 := solveFileRace(c, j.full, fc)
+			r2 := confirmSat(c, solveFileRace(c, j.full, fc), j.full, fc)
 			os.Remove(fc)
 			r2.secs += r.secs
 			r = r2
